@@ -35,7 +35,8 @@ CHUNK = 4
 PROBES = ["split_1n1", "empty_write", "multi_record_write", "limit_hit",
           "padding_seen", "read_max_lt_buffered", "rsl_negotiated",
           "user_recordsize", "etm", "tls13", "sslv3", "null_cipher",
-          "resumed", "zero_length_read", "buffer_reused"]
+          "resumed", "zero_length_read", "buffer_reused", "key_update",
+          "close_with_data_in_flight"]
 COMPONENTS_REAL = ["tlslite record layer, TLSRecordLayer read/write paths, "
                    "handshake, all pure-Python ciphers/MACs"]
 COMPONENTS_STUB = ["socket (FakeSocket/Pipe)", "os.urandom (per-node PRNG)",
@@ -116,7 +117,15 @@ def draw_script(ch, sc):
     for _ in range(nops):
         who = "cs"[ch.draw(2, "op.who")]
         peer = "s" if who == "c" else "c"
-        k = ch.draw(12, "op.kind")
+        k = ch.draw(13, "op.kind")
+        if k in (8, 9) and tuple(sc["version"]) == (3, 4) and \
+                ch.draw(2, "op.kualt") == 1:
+            k = 12
+        if k == 12:
+            # TLS 1.3 KeyUpdate (with or without asking the peer to follow)
+            if tuple(sc["version"]) == (3, 4):
+                out.append([who, "ku", ch.draw(2, "op.kureq")])
+            continue
         if k == 10:
             # the documented idiom for "process pending control messages":
             # a zero-length read; it must not consume application data
@@ -317,6 +326,11 @@ def run(job, streams=None):
                 if op[2] == 0:
                     probes["zero_length_read"] = 1
                 return lambda: conn.readAsync(op[2], op[3])
+            if op[1] == "ku":
+                probes["key_update"] = 1
+                return lambda: conn.send_keyupdate_request(op[2])
+            if op[1] == "close":
+                return lambda: conn.closeAsync()
             if op[1] == "recordsize":
                 def setrs():
                     conn.recordSize = op[2]
@@ -344,6 +358,23 @@ def run(job, streams=None):
             drain = [[w, "read", None, owed[w]] for w in "cs" if owed[w] > 0]
             if drain:
                 st = sim_script.run_script(sim, eps, drain, op_gen)
+        tail_min = {}
+        if st == "idle" and ch.draw(2, "tail.on") == 1:
+            # one side writes a last chunk and closes; its peer asks for
+            # more than is coming: everything written before the
+            # close_notify must still be delivered
+            w = "cs"[ch.draw(2, "tail.who")]
+            peer = "s" if w == "c" else "c"
+            n = 1 + ch.draw(300, "tail.n")
+            off = max([c[0] + c[1] for c in sent_chunks[w]] or [0])
+            sent_chunks[w].append((off, n))
+            stream[w] += scen.payload(1 if w == "c" else 2, off, n)
+            wrote[w] += n
+            tail_min[peer] = n + 40
+            probes["close_with_data_in_flight"] = 1
+            st = sim_script.run_script(
+                sim, eps, [[w, "write", off, n], [w, "close"],
+                           [peer, "read", None, n + 40]], op_gen)
         if st != "idle":
             if st == "cap":
                 pass
@@ -382,7 +413,8 @@ def run(job, streams=None):
                 if mx is not None and len(data) > mx:
                     v("fifo", "read_gt_max|%s" % w,
                       "read(max=%s) returned %d bytes" % (mx, len(data)))
-                if len(data) < mn:
+                if len(data) < mn and not (tail_min.get(w) == mn and
+                                           o is eps[w].history[-1]):
                     v("fifo", "read_lt_min|%s" % w,
                       "read(min=%s) returned %d bytes on an open "
                       "connection" % (mn, len(data)))
